@@ -25,6 +25,17 @@
 (* the ^ moved to the other side -- an expectation every judge must refuse       *)
 (* (TlbMini!Matches refuses it here; the check feeds it to the driver and to     *)
 (* TlbMini_Trace as canaries).                                                   *)
+(*                                                                               *)
+(* The unnamed-field family (shape numbers ABase + a, a < 32): a field written   *)
+(* without `name:` -- every form the grammar allows: ^X (X a record, a builtin), *)
+(* ^[ ... ], plain X (a record, a union), (Maybe ^X), (Maybe X), (Either X ^X) -- *)
+(* as the only field, first, in the middle and last among named fields (which    *)
+(* include references, so a reference that is lost or misplaced also disturbs    *)
+(* the order).  The layout is TlbMini's as for a named field: a name changes     *)
+(* nothing, an unnamed ^ is a reference to a new cell.  The field carries        *)
+(* anon |-> TRUE in the AST (the runner leaves its name out of the .tlb text;    *)
+(* the name is only the key of the value record).  `wrong` here is the cell with *)
+(* the unnamed field's ^ dropped (inline instead of referenced).                 *)
 EXTENDS TlbMini, Json, FiniteSets, TlChoice
 CONSTANTS Seed, Ns, PerSchema
 VARIABLE k
@@ -56,7 +67,7 @@ EBase  == 9000000
 ECount == 96
 EPairs == << <<Nm("Inner"), U(16)>>, <<U(8), Nm("Alt")>> >>
 ESides(p) == <<p[1], Rf(p[1]), p[2], Rf(p[2])>>
-IsE(n)  == n >= EBase
+IsE(n)  == n >= EBase /\ n < EBase + ECount
 ECtx(e) == (e % 48) \div 16
 EiOf(e) == LET s == ESides(EPairs[(e \div 48) + 1]) IN Ei(s[((e % 16) \div 4) + 1], s[(e % 4) + 1])
 EShape(e) == CASE ECtx(e) = 0 -> <<EiOf(e)>>
@@ -64,8 +75,24 @@ EShape(e) == CASE ECtx(e) = 0 -> <<EiOf(e)>>
                [] ECtx(e) = 2 -> <<U(13), Rf(U(32)), EiOf(e), Rf(Nm("NoTag")), Bo>>
 EField(e) == IF ECtx(e) = 2 THEN "f3" ELSE "f1"          \* where Main keeps the Either
 
+\* ---- the unnamed-field family: a = kind * 4 + position (0 alone, 1 first, 2 middle, 3 last)
+ABase  == 9100000
+AKinds == <<Rf(Nm("Inner")), Rf(U(32)), Rf(An(<<F("p", U(8)), F("q", I(8))>>)), Nm("Inner"), Nm("Alt"),
+            Mb(Rf(Nm("Inner"))), Mb(Nm("Inner")), Ei(Nm("Inner"), Rf(Nm("Inner")))>>
+ACount == 4 * Len(AKinds)
+IsA(n)   == n >= ABase /\ n < ABase + ACount
+AKind(a) == AKinds[(a \div 4) + 1]
+AIdx(a)  == IF a % 4 < 2 THEN 1 ELSE 3                    \* where the unnamed field stands in Main
+AShape(a) == CASE a % 4 = 0 -> <<AKind(a)>>
+               [] a % 4 = 1 -> <<AKind(a), U(13), Rf(U(32))>>
+               [] a % 4 = 2 -> <<U(13), Rf(U(32)), AKind(a), Rf(Nm("NoTag")), Bo>>
+               [] a % 4 = 3 -> <<U(13), Rf(U(32)), AKind(a)>>
+AnonIdx(n) == IF IsA(n) THEN {AIdx(n - ABase)} ELSE {}
+IsFam(n)   == IsE(n) \/ IsA(n)
+
 Shape(n) == IF n < NA THEN <<Alphabet[n + 1]>>
             ELSE IF IsE(n) THEN EShape(n - EBase)
+            ELSE IF IsA(n) THEN AShape(n - ABase)
             ELSE LET ctx == B4(Seed) \o B4(n) \o <<78>>  len == 2 + Pick(ctx, 3)
                  IN [i \in 1..len |-> Alphabet[Pick(ctx \o <<i>>, NA) + 1]]
 
@@ -76,6 +103,15 @@ SwapEi(ty)   == Ei(IF ty.r.t = "ref" THEN Rf(StripRef(ty.l)) ELSE StripRef(ty.l)
 SwapTy(ty)   == IF ty.t = "either" THEN SwapEi(ty)
                 ELSE IF ty.t = "maybe" /\ ty.of.t = "either" THEN Mb(SwapEi(ty.of)) ELSE ty
 SwapShape(sh) == [i \in 1..Len(sh) |-> SwapTy(sh[i])]
+\* a field's type with its own ^ dropped: what is declared to sit in a new cell is put inline
+Inline(ty) == CASE ty.t = "ref" -> ty.of
+                [] ty.t = "maybe"  -> Mb(StripRef(ty.of))
+                [] ty.t = "either" -> Ei(StripRef(ty.l), StripRef(ty.r))
+                [] OTHER -> ty
+OwnRef(ty) == Inline(ty) # ty
+\* the declaration every judge must refuse for values of shape n: E family ^ exchanged, A family unnamed ^ dropped
+WrongShape(n) == IF IsA(n) THEN [i \in 1..Len(Shape(n)) |-> IF i \in AnonIdx(n) THEN Inline(Shape(n)[i]) ELSE Shape(n)[i]]
+                 ELSE SwapShape(Shape(n))
 
 \* label of a kind = its TL-B text, except that an Either with ^ in an unusual place is labelled by its class (EiClass)
 RECURSIVE TyText(_)
@@ -100,12 +136,17 @@ KLabel(ty) ==
   IF ty.t = "either" THEN EiClass(ty)
   ELSE IF ty.t = "maybe" /\ ty.of.t = "either" /\ EiClass(ty.of) # TyText(ty.of) THEN EiClass(ty.of)     \* the class also when nested under Maybe
   ELSE TyText(ty)
+\* unnamed fields: every unnamed ^ is one class, every unnamed Maybe another, the other forms keep their text
+ALabel(ty) == IF ty.t = "ref" THEN "unnamed-^-field" ELSE IF ty.t = "maybe" THEN "unnamed-Maybe-field" ELSE StrCat("unnamed ", TyText(ty))
+KLabelAt(n, i) == IF i \in AnonIdx(n) THEN ALabel(Shape(n)[i]) ELSE KLabel(Shape(n)[i])
 
-Fields(sh) == [i \in 1..Len(sh) |-> F(StrCat("f", ToString(i)), sh[i])]
-Rot(sh, r) == [i \in 1..Len(sh) |-> sh[((i - 1 + r) % Len(sh)) + 1]]
+\* fields of shape sh rotated by r; the positions in `anon` (of sh) are unnamed fields
+FieldsR(sh, r, anon) == [i \in 1..Len(sh) |->
+                          LET src == ((i - 1 + r) % Len(sh)) + 1  nm == StrCat("f", ToString(i)) IN
+                          IF src \in anon THEN [name |-> nm, ty |-> sh[src], anon |-> TRUE] ELSE F(nm, sh[src])]
 MainTags == <<"#deadbeef", "#a1", "$101", "", "#0c5">>
 D(c, tag, res, fs) == [ctor |-> c, tag |-> tag, result |-> res, fields |-> fs]
-SchemaFor(n, sh) ==
+SchemaForA(n, sh, anon) ==
   LET ku == 2 + (n % 2) IN
   [decls |->
      <<D("inner", "#a1", "Inner", <<F("a", U(8)), F("b", I(32))>>),
@@ -115,8 +156,9 @@ SchemaFor(n, sh) ==
        D("alt_c", "$1", "Alt", <<>>),
        D("hx_a", "#1234", "Hx", <<F("q", U(3))>>),
        D("hx_b", "#5678abcd", "Hx", <<F("r", I(7))>>),
-       D("main", MainTags[(n % Len(MainTags)) + 1], "Main", Fields(sh))>>
-     \o [i \in 1..ku |-> D(StrCat("un_", SubStr("abc", i, i)), <<"$0", "$10", "$11">>[i], "Un", Fields(Rot(sh, i - 1)))]]
+       D("main", MainTags[(n % Len(MainTags)) + 1], "Main", FieldsR(sh, 0, anon))>>
+     \o [i \in 1..ku |-> D(StrCat("un_", SubStr("abc", i, i)), <<"$0", "$10", "$11">>[i], "Un", FieldsR(sh, i - 1, anon))]]
+SchemaFor(n, sh) == SchemaForA(n, sh, AnonIdx(n))
 SchemaOf(n) == SchemaFor(n, Shape(n))
 
 \* ------------------------------------------------------------------ values
@@ -129,11 +171,11 @@ RECURSIVE SortBits(_)
 SortBits(set) == IF set = {} THEN <<>>
                  ELSE LET m == CHOOSE x \in set : \A y \in set \ {x} : BLess(x, y) IN <<m>> \o SortBits(set \ {m})
 
-\* contexts are B4(Seed) \o B4(schema) \o B4(vector number) \o path.  In the Either family the vector number decides
+\* contexts are B4(Seed) \o B4(schema) \o B4(vector number) \o path.  In the two families the vector number decides
 \* which side an Either takes and whether a Maybe holds a value: 1 right, 2 left, 3 nothing / right, 0 left (mod 4)
 VecNo(ctx)    == ctx[9]
-TakeRight(ctx) == IF IsE(k) THEN VecNo(ctx) % 2 = 1 ELSE Pick(ctx \o <<4>>, 2) = 1
-TakeNone(ctx)  == IF IsE(k) THEN VecNo(ctx) % 4 = 3 ELSE Pick(ctx \o <<2>>, 2) = 0
+TakeRight(ctx) == IF IsFam(k) THEN VecNo(ctx) % 2 = 1 ELSE Pick(ctx \o <<4>>, 2) = 1
+TakeNone(ctx)  == IF IsFam(k) THEN VecNo(ctx) % 4 = 3 ELSE Pick(ctx \o <<2>>, 2) = 0
 
 RECURSIVE GenV(_, _, _, _), GenFs(_, _, _, _, _, _)
 GenFs(S, fs, ctx, dep, i, acc) ==
@@ -165,10 +207,10 @@ VecOf(S, j) ==
       fits == Fits(S, ty, v)
       base == [vec |-> j - 1, ty |-> name, v |-> v, fits |-> fits, sane |-> ValidTy(S, ty, v)]
       cell == CellJ(Enc(S, ty, v))
-      \* Either family: the cell this value has when the ^ of the two sides is exchanged (where that makes a difference)
-      wrong == CellJ(Enc(SchemaFor(k, SwapShape(Shape(k))), ty, v))
+      \* families: the cell this value has under the wrong declaration (^ of the Either sides exchanged / unnamed ^ dropped), where that makes a difference
+      wrong == CellJ(Enc(SchemaFor(k, WrongShape(k)), ty, v))
   IN IF fits /\ ~HasDict(S, ty, 4)
-       THEN (IF IsE(k) /\ wrong # cell THEN base @@ [cell |-> cell, wrong |-> wrong] ELSE base @@ [cell |-> cell])
+       THEN (IF IsFam(k) /\ wrong # cell THEN base @@ [cell |-> cell, wrong |-> wrong] ELSE base @@ [cell |-> cell])
        ELSE base
 
 \* which side Main's Either takes in value v of an Either-family schema
@@ -182,13 +224,25 @@ ECovered(n, vs) ==
   /\ \A j \in mains : "cell" \in DOMAIN vs[j]
   /\ (ei.l.t = "ref") # (ei.r.t = "ref") => \A sd \in {"l", "r"} : \E j \in mains : ESide(n, vs[j].v) = sd /\ "wrong" \in DOMAIN vs[j]
 
+\* unnamed-field family, not vacuous: every Main vector has its cell; an Either takes both sides, a Maybe is empty and full;
+\* a field with a ^ of its own has a `wrong` twin
+ACovered(n, vs) ==
+  LET mains == {j \in 1..Len(vs) : vs[j].ty = "Main"}
+      ty    == AKind(n - ABase)
+      fld   == StrCat("f", ToString(AIdx(n - ABase))) IN
+  /\ mains # {} /\ \A j \in mains : "cell" \in DOMAIN vs[j]
+  /\ (ty.t = "either" => {"l", "r"} \subseteq {vs[j].v[fld].e : j \in mains})
+  /\ (ty.t = "maybe"  => {"none", "just"} \subseteq {vs[j].v[fld].m : j \in mains})
+  /\ (OwnRef(ty) => \E j \in mains : "wrong" \in DOMAIN vs[j])
+
 Out(n) == LET S == SchemaOf(n)  vs == [j \in 1..PerSchema |-> VecOf(S, j)] IN
-          [schema |-> n, ast |-> S, kinds |-> [i \in 1..Len(Shape(n)) |-> KLabel(Shape(n)[i])], vecs |-> vs,
+          [schema |-> n, ast |-> S, kinds |-> [i \in 1..Len(Shape(n)) |-> KLabelAt(n, i)], vecs |-> vs,
            sane |-> /\ \A j \in 1..PerSchema :
                          /\ vs[j].sane
                          /\ ("cell" \in DOMAIN vs[j] => Matches(S, Nm(vs[j].ty), vs[j].v, CellOf(vs[j].cell)) /\ CellFits(CellOf(vs[j].cell)))
                          /\ ("wrong" \in DOMAIN vs[j] => ~Matches(S, Nm(vs[j].ty), vs[j].v, CellOf(vs[j].wrong)))
-                    /\ (IsE(n) => ECovered(n, vs))]
+                    /\ (IsE(n) => ECovered(n, vs))
+                    /\ (IsA(n) => ACovered(n, vs))]
 
 Init == k \in Ns
 Next == UNCHANGED k
